@@ -2,7 +2,7 @@
 From Coq Require Import NArith Bool List.
 Import ListNotations.
 From XetModel Require Import Base.Codec Gen.ShardLayout Model.Merkle Model.Shard Model.Crash Proofs.SetOpProofs Proofs.SetOpSortedProofs.
-From XetModel Require Import Proofs.CodecProofs Proofs.ShardWholeProofs Proofs.ShardDedupWholeProofs Proofs.ShardProofs Proofs.MergeProofs Proofs.MergeAllProofs Proofs.MergeResegProofs Proofs.UnionWfProofs.
+From XetModel Require Import Proofs.CodecProofs Proofs.ShardWholeProofs Proofs.ShardDedupWholeProofs Proofs.ShardProofs Proofs.MergeProofs Proofs.MergeAllProofs Proofs.MergeResegProofs Proofs.UnionWfProofs Proofs.ShardSizeProofs Proofs.DiffBuiltProofs.
 Open Scope N_scope.
 
 (* keys are the four u64 words the code orders and compares by *)
@@ -30,6 +30,13 @@ Proof. exact diff_files_spec. Qed.
 Theorem C10_difference_cas_exact : forall fuel a b c, (length a + length b <= fuel)%nat -> KSorted ci_hash a -> KSorted ci_hash b ->
   (In c (diff_cas fuel a b) <-> In c b /\ ~ In (ckey c) (map ckey a)).
 Proof. exact diff_cas_spec. Qed.
+(* the sortedness premise is met by every shard the client writes: for two in-memory shards built by any sequences of adds
+   (whose record lists serialize_from writes in order) the difference is exact *)
+Theorem C10_difference_exact_for_built_shards : forall opsA opsB, Forall mop_ok opsA -> Forall mop_ok opsB ->
+  let a := fold_left mstep_add opsA ms_empty in let b := fold_left mstep_add opsB ms_empty in
+  (forall f, In f (diff_files (length (ms_files a) + length (ms_files b)) (ms_files a) (ms_files b)) <-> In f (ms_files b) /\ ~ In (fkey f) (map fkey (ms_files a))) /\
+  (forall c, In c (diff_cas (length (ms_cass a) + length (ms_cass b)) (ms_cass a) (ms_cass b)) <-> In c (ms_cass b) /\ ~ In (ckey c) (map ckey (ms_cass a))).
+Proof. exact difference_exact_for_built_shards. Qed.
 (* without the sortedness premise: only records of the second shard *)
 Theorem C10_difference_files_subset : forall fuel a b f, In f (diff_files fuel a b) -> In f b.
 Proof. exact diff_files_subset. Qed.
@@ -136,3 +143,4 @@ Print Assumptions C10_merge_from_of_resegmented_records_refuted.
 Print Assumptions C10_merge_of_same_segmentation_is_wellformed.
 Print Assumptions C10_union_of_wellformed_shards_is_wellformed.
 Print Assumptions C10_group_unions_are_wellformed.
+Print Assumptions C10_difference_exact_for_built_shards.
